@@ -322,6 +322,8 @@ theorem C01_step (f : Forest) (n : Bool) (op : Op) (hf : f.ok = true) :
         simp only [step, hfind]
         split
         · exact hf
+        split
+        · exact hf
         · split
           · exact hf
           · next k c hlast =>
@@ -497,6 +499,8 @@ theorem C01_removed_detached (f : Forest) (n : Bool) (op : Op) (hf : f.rootsFree
       | leaf a => simp only [step, hfind]; exact hf
       | node m its =>
         simp only [step, hfind]
+        split
+        · exact hf
         split
         · exact hf
         · split
